@@ -41,7 +41,8 @@ def border_job(job):
     from numbers_parser import Border, Document
     rng = random.Random(seed)
     vals = border_values(rng)
-    size = n + 1
+    touches = [s for s in strokes if str(s["v"]).startswith("touch-")]
+    size = n + 1 + (2 if touches else 0)       # room for the rectangles that "touch-merge" merges, away from the line under test
     doc = Document(num_rows=size, num_cols=size, num_header_rows=0, num_header_cols=0)
     tb = doc.sheets[0].tables[0]
     if merged == 2:
@@ -82,9 +83,10 @@ def border_job(job):
                 tb.set_cell_border(o - 1, line - 1, "right", vals[v], ln)
             else:
                 tb.set_cell_border(o - 1, line, "left", vals[v], ln)
+    nmerge = 0
     for s in strokes:
         o, ln, v = s["o"], s["len"], s["v"]
-        if o == 0 and v != "reopen":
+        if o == 0 and v != "reopen" and not str(v).startswith("touch-"):
             # Borders.tla Preloaded(v): the line comes from a file that already shows v along its whole length, in the state Numbers
             # and the library itself leave behind (the layer's counter equals its latest order)
             draw(1, n, v, False)
@@ -97,6 +99,18 @@ def border_job(job):
         if v == "reopen":
             doc = Document(path)
             tb = doc.sheets[0].tables[0]
+        elif v == "touch-write":
+            # Borders.tla Touch: the cells on both sides of the line are written to (Table.write replaces the cell objects)
+            from numbers_parser import MergedCell
+            for i in range(n):
+                for (r, c) in ([(line, i), (line - 1, i)] if orient == "h" else [(i, line), (i, line - 1)]):
+                    if 0 <= r < tb.num_rows and 0 <= c < tb.num_cols and not isinstance(tb.cell(r, c), MergedCell):
+                        tb.write(r, c, "w%d" % nmerge)
+        elif v == "touch-merge":
+            # Borders.tla Touch: a rectangle elsewhere in the table is merged (merge_cells rebuilds every cell's border object)
+            from ..wb import colname
+            tb.merge_cells("%s%d:%s%d" % (colname(2 * nmerge), n + 2, colname(2 * nmerge + 1), n + 3))
+            nmerge += 1
         else:
             draw(o, ln, v, line >= 1 and rng.random() < 0.4)
         e = {"o": o, "len": ln, "v": v}
@@ -284,7 +298,13 @@ def style_job(job):
 
     def tab(d, c):
         return d.sheets[where[c][0]].tables[where[c][1]]
-    if twin == "bg_color/split":
+    if twin == "preset-over":
+        # a style with a fill and non-default inset / wrapping: what a preset style applied later must replace
+        from numbers_parser import RGB
+        sets["A"]["bg_image"] = None
+        sets["A"]["bg_color"] = RGB(200, 30 + idx % 50, 30)
+        sets["A"]["text_wrap"] = False
+    elif twin == "bg_color/split":
         # fills whose decimal digits run together to the same string: (1, 23, 4) and (12, 3, 4) - the hard case for a de-duplication key
         from numbers_parser import RGB
         pa, pb = [((1, 23, 4), (12, 3, 4)), ((11, 1, 1), (1, 11, 1)), ((2, 55, 25), (25, 5, 25)), ((1, 0, 10), (10, 1, 0)), ((1, 1, 11), (11, 1, 1)),
@@ -315,8 +335,9 @@ def style_job(job):
     doc = new_doc()
     for c, (r, k) in pos.items():
         tab(doc, c).write(r, k, "cell " + c)
-    want = {}
-    names = {}
+    # the document's preset style "Body" (Styles.tla PresetNames): its attribute-set token is its name
+    want = {"Body": style_tuple(doc.styles["Body"])}
+    names = {"Body": doc.styles["Body"]}
     path = os.path.join(scratch, "st-%d-%d.numbers" % (os.getpid(), idx))
 
     def token(d, c):
@@ -397,7 +418,7 @@ def TB_CFG(n):
     return 'CONSTANTS N = %d\nValues = {"a", "b", "old"}\nMaxStrokes = 99\nBug = "none"\nSPECIFICATION TSpec\nINVARIANT Done\nCHECK_DEADLOCK FALSE\n' % n
 
 
-TS_CFG = 'CONSTANTS Cells = {"c1", "c2"}\nAttrs = {"A", "B", "C", "D"}\nMaxOps = 99\nBug = "none"\nSPECIFICATION TSpec\nINVARIANT Done\nCHECK_DEADLOCK FALSE\n'
+TS_CFG = 'CONSTANTS Cells = {"c1", "c2"}\nAttrs = {"A", "B", "C", "D"}\nPresetNames = {"Body"}\nMaxOps = 99\nBug = "none"\nSPECIFICATION TSpec\nINVARIANT Done\nCHECK_DEADLOCK FALSE\n'
 
 
 def dump_histories(ctx, module, cfgtext, what):
@@ -421,14 +442,16 @@ def run(ctx):
                 "attribute sets drawn from the documented domains; distinct_nontrivial = distinct histories with at least two strokes / one applied style")
     ctx.assumptions = ["style sizes/indents are float32-exact quarter points, fonts are families known to the library", "border and style values are compared attribute by attribute through tokens"]
     bcfg = 'CONSTANTS N = %d\nValues = {"a", "b"}\nMaxStrokes = %d\nBug = "%s"\nSPECIFICATION Spec\n%sINVARIANT FileAgrees\nINVARIANT OpenAgrees\nCHECK_DEADLOCK FALSE\n'
-    scfg = 'CONSTANTS Cells = {"c1", "c2"}\nAttrs = {"A", "B"}\nMaxOps = %d\nBug = "%s"\nSPECIFICATION Spec\n%sINVARIANT SavedIsShown\nPROPERTY ReadIsReadOnly\nPROPERTY UnstyledKeep\nCHECK_DEADLOCK FALSE\n'
+    scfg = 'CONSTANTS Cells = {"c1", "c2"}\nAttrs = {"A", "B"}\nPresetNames = {"Body"}\nMaxOps = %d\nBug = "%s"\nSPECIFICATION Spec\n%sINVARIANT SavedIsShown\nPROPERTY ReadIsReadOnly\nPROPERTY UnstyledKeep\nCHECK_DEADLOCK FALSE\n'
     ctx.stage("model-check")
     ctx.tlc("Borders", bcfg % (5, 3 if q else 4, "none", "VIEW NoHist\n"), what="MC_Borders[5 positions, 2 values]", timeout=3000)
     ctx.tlc("Borders", bcfg % (4, 3, "StampAfterUpdate", "VIEW NoHist\n"), what="Bug_StampAfterUpdate", expect_violation="OpenAgrees", count=False)
     ctx.tlc("Borders", bcfg % (4, 3, "FirstRunWins", "VIEW NoHist\n"), what="Bug_FirstRunWins", expect_violation="FileAgrees", count=False)
     ctx.tlc("Borders", bcfg % (4, 3, "OrderBeforeBump", "VIEW NoHist\n"), what="Bug_OrderBeforeBump", expect_violation="OpenAgrees", count=False)
+    ctx.tlc("Borders", bcfg % (4, 3, "TouchForgetsBorders", "VIEW NoHist\n"), what="Bug_TouchForgetsBorders", expect_violation="OpenAgrees", count=False)
     ctx.tlc("Styles", scfg % (6 if q else 7, "none", "VIEW NoHist\n"), what="MC_Styles", timeout=3000)
     ctx.tlc("Styles", scfg % (6, "ReadMarksDirty", "VIEW NoHist\n"), what="Bug_ReadMarksDirty", expect_violation="SavedIsShown", count=False)
+    ctx.tlc("Styles", scfg % (6, "PresetKeepsCellStyle", "VIEW NoHist\n"), what="Bug_PresetKeepsCellStyle", expect_violation="SavedIsShown", count=False)
     rng = random.Random(ctx.seed + 15)
     ctx.stage("borders")
     N = 4
@@ -534,6 +557,17 @@ def run(ctx):
         h += [{"op": "add", "nm": "AUTO", "a": "C"}, {"op": "add", "nm": "AUTO", "a": "D"}, {"op": "apply", "nm": third, "c": "c1"}, {"op": "apply", "nm": fourth, "c": "c2"},
               {"op": "save"}, {"op": "read", "c": "c1"}, {"op": "save"}]
         sjobs.append((300000 + j, h, ctx.seed * 11 + j, ctx.scratch, None))
+    # a preset style applied over a styled cell: before the first save, after a save, after a reopen
+    for j in range(6 if q else 60):
+        h = [{"op": "add", "nm": "Named" if j % 2 else "AUTO", "a": "A"}]
+        first = "Named" if j % 2 else "Custom Style 1"
+        h += [{"op": "apply", "nm": first, "c": "c1"}, {"op": "apply", "nm": first, "c": "c2"}]
+        if j % 3 >= 1:
+            h += [{"op": "save"}]
+        if j % 3 == 2:
+            h += [{"op": "reopen"}]
+        h += [{"op": "apply", "nm": "Body", "c": "c1"}, {"op": "save"}, {"op": "read", "c": "c1"}, {"op": "save"}, {"op": "reopen"}, {"op": "read", "c": "c2"}, {"op": "save"}]
+        sjobs.append((400000 + j, h, ctx.seed * 13 + j, ctx.scratch, "preset-over"))
     strs = fixtures.pmap(style_job, sjobs, ctx.workers, chunksize=4)
     ctx.evaluations += len(strs)
     for t in strs:
